@@ -163,10 +163,18 @@ func checkDataMsg(m *hsms.DataMessage, f e37.Fields, b *bodyT) fail {
 		var err error
 		name := [3]string{"DecodeHSMSMessage", "DecodeHSMSPayload", "DecodeOwnedHSMSPayload"}[ep]
 		switch ep {
-		case 0:
-			dmsg, err = hsms.DecodeHSMSMessage(got)
-		case 1:
-			dmsg, err = hsms.DecodeHSMSPayload(got[4:])
+		case 0, 1:
+			// the copying entry points: the caller's buffer is the caller's again as soon as the call
+			// returns — it is overwritten here before anything looks at the message
+			buf := bytes.Clone(got)
+			if ep == 0 {
+				dmsg, err = hsms.DecodeHSMSMessage(buf)
+			} else {
+				dmsg, err = hsms.DecodeHSMSPayload(buf[4:])
+			}
+			for i := range buf {
+				buf[i] = 0xEE
+			}
 		case 2:
 			dmsg, err = hsms.DecodeOwnedHSMSPayload(bytes.Clone(got[4:]))
 		}
@@ -212,8 +220,12 @@ func checkDataMsg(m *hsms.DataMessage, f e37.Fields, b *bodyT) fail {
 		return bad("MarshalBinary", "MarshalBinary err=%v or bytes differ from the frame", err)
 	}
 	var cd hsms.DataMessageCodec
-	if err := cd.UnmarshalBinary(mb); err != nil || cd.Message == nil {
+	ub := bytes.Clone(mb)
+	if err := cd.UnmarshalBinary(ub); err != nil || cd.Message == nil {
 		return bad("UnmarshalBinary-err", "UnmarshalBinary of MarshalBinary output failed: %v", err)
+	}
+	for i := range ub { // encoding.BinaryUnmarshaler: "UnmarshalBinary must copy the data if it wishes to retain the data after returning"
+		ub[i] = 0xEE
 	}
 	if !cd.Message.Equal(m) || !bytes.Equal(cd.ToBytes(), want) || cd.HeaderBytes() != e37.Header(f) {
 		return bad("UnmarshalBinary-roundtrip", "UnmarshalBinary(MarshalBinary(m)) is not the same message")
